@@ -164,9 +164,9 @@ class Engine:
     def oblige(self, st: State, kind, goal, desc, line=None):
         if self.spec_mode:
             return
-        goal = z3.simplify(goal) if z3.is_expr(goal) else z3.BoolVal(bool(goal))
-        if z3.is_true(goal):
-            return
+        goal = goal if z3.is_expr(goal) else z3.BoolVal(bool(goal))
+        if z3.is_true(z3.simplify(goal)):
+            goal = z3.BoolVal(True)
         if st.guards:
             goal = z3.Implies(z3.And(*st.guards), goal)
         line = line or self.cur_line
@@ -179,8 +179,8 @@ class Engine:
             return
         if not z3.is_expr(cond):
             cond = z3.BoolVal(bool(cond))
-        full = z3.simplify(z3.And(*st.guards, cond)) if st.guards else z3.simplify(cond)
-        if z3.is_false(full):
+        full = z3.And(*st.guards, cond) if st.guards else cond
+        if z3.is_false(z3.simplify(full)):
             return
         for h in reversed(st.handlers):
             if any(exc_is(exc, cls) for cls in h):
@@ -196,7 +196,8 @@ class Engine:
         st.pc.append(z3.Not(full))
 
     def oblige_raw(self, st, kind, goal, desc):
-        goal = z3.simplify(goal)
+        if z3.is_true(z3.simplify(goal)):
+            goal = z3.BoolVal(True)
         oid = f'{self.c.qual.split(".")[-1]}/L{self.cur_line}/{kind}#{next(self.oid)}'
         self.obligations.append(Obligation(oid, kind, desc, list(st.pc), goal, self.c.qual, self.cur_line))
 
@@ -269,6 +270,13 @@ class Engine:
                 return V(STR, z3.StringVal(obj))
             if t == CPS:
                 return V(CPS, str_to_cps(obj))
+        if isinstance(obj, dict) and isinstance(t, TMap):
+            term = z3.K(t.k.sort(), t.vopt.none())
+            for k, v in obj.items():
+                kv = self.lift_py(k, t.k, node)
+                vv = self.coerce(v if isinstance(v, (V, VNone, VPy)) else const_value(v), t.v, node)
+                term = z3.Store(term, kv.term, t.vopt.some(vv.term))
+            return V(t, term)
         if isinstance(obj, list) and not obj and t == CPS:
             return V(CPS, z3.Empty(CPS.sort()))
         if isinstance(obj, (tuple, list)) and isinstance(t, TSeq):
@@ -689,10 +697,11 @@ class Engine:
     def st_If(self, s, st):
         cv = self.ev(s.test, st)
         outs = self.flush_raises(st)
-        c = z3.simplify(self.truthy(cv, s.test))
-        if z3.is_true(c):
+        c = self.truthy(cv, s.test)
+        cs_ = z3.simplify(c)
+        if z3.is_true(cs_):
             return outs + self.exec_block(s.body, st)
-        if z3.is_false(c):
+        if z3.is_false(cs_):
             return outs + self.exec_block(s.orelse, st)
         base = len(st.pc)
         s1 = st.copy()
@@ -944,6 +953,12 @@ class Engine:
                             result.append(o)
                 states = nxt
             return result + [Outcome('fall', x) for x in states]
+        for r in getattr(self.world, 'iter_rules', []):
+            conv = r(self, itv, st, s)
+            if conv is not None:
+                itv = conv
+                outs0 = outs0 + self.flush_raises(st)
+                break
         var = s.target.id if isinstance(s.target, ast.Name) else None
         enum = False
         if isinstance(itv, VPy) and isinstance(itv.obj, tuple) and itv.obj and itv.obj[0] == 'enumerate':
@@ -1039,6 +1054,17 @@ class Engine:
         if not items:
             return VPy([])
         return VPy(list(i.obj if isinstance(i, VPy) else i for i in items))
+
+    def ex_Dict(self, e, st):
+        d = {}
+        for k, v in zip(e.keys, e.values):
+            kv, vv = self.ev(k, st), self.ev(v, st)
+            if isinstance(kv, V) and z3.is_string_value(kv.term):
+                kv = VPy(z3_string_value(kv.term))
+            if not isinstance(kv, VPy):
+                raise Unsupported('dict literal with a non-constant key', e)
+            d[kv.obj] = vv
+        return VPy(d)
 
     def ex_Set(self, e, st):
         return self.ex_Tuple(e, st)
@@ -1326,6 +1352,12 @@ class Engine:
             return x if isinstance(x, (V, VNone, VPy, VObj)) else const_value(x)
         if isinstance(base, VPy) and isinstance(base.obj, dict):
             raise Unsupported('subscript of a constant dict', node)
+        for r in getattr(self.world, 'iter_rules', []):
+            if isinstance(base, V) and not isinstance(base.t, (TSeq, TMap, TTup)) and base.t not in (STR, CPS):
+                conv = r(self, base, st, node)
+                if conv is not None:
+                    base = conv
+                    break
         if isinstance(base, V) and isinstance(base.t, TMap):
             k = self.coerce(idx, base.t.k, node)
             r = z3.Select(base.term, k.term)
